@@ -16,6 +16,16 @@ CHECKS = {
         "The parser runs concretely once a path's choices are fixed. Trusted: CrossHair 0.0.110, z3 5.1, the skeleton oracle in vf/blocks.py.",
         "DESIGN.md 3/C05",
     ),
+    "C07": (
+        "model_checking",
+        "regex -> z3 compilation (E-RX) of every token rule of the built PLY lexer: ambiguity-of-repeat and maximal-backtracking-step queries decided by z3 / z3 Optimize; flagged witnesses pumped and timed on the real parse_string",
+        "For all strings up to the witness bound z3 shows that no unbounded repeat of any token rule (or auxiliary pattern) can consume a span in two "
+        "different ways, and the per-rule maximum of the backtracking step count (an exact linear-arithmetic term) does not triple per two characters; "
+        "a sat answer is pumped and only measured exponential growth of the real parser's time is reported. Parser-side nesting families are timed concretely.",
+        "Bound: ambiguity witness <=8 (quick) / <=12 (thorough) code points, step maxima for n<=10 / 12; exponential families with longer shortest witnesses are outside. "
+        "Trusted: the translator (validated every run against the running re engine on >10^4 (string, position) pairs incl. the test-suite's token texts), z3.",
+        "DESIGN.md 3/C07",
+    ),
 }
 
 NOT_YET = "no check landed yet in this build (planned engine and bounds: DESIGN.md section 3); not claimed until the check runs green"
